@@ -1,7 +1,7 @@
-\* generated by lib/brokerlib.py gen_configs (tlc -simulate num=N -depth 40 -config Gen_small.cfg Broker.tla)
+\* generated by lib/brokerlib.py gen_configs (tlc -simulate num=N -depth 60 -config Gen_match.cfg Broker.tla)
 CONSTANTS
-  Proxies = {"p1"}
-  Clients = {"c1"}
+  Proxies = {"p1", "p2", "p3"}
+  Clients = {"c1", "c2"}
   Answers = {"a1"}
   PT = 2
   CT = 2
@@ -10,10 +10,10 @@ CONSTANTS
   StrictTimers = TRUE
   D1Fixed = TRUE
   D2Fixed = TRUE
-  PNatSet = {"unrestricted", "restricted", "unknown", "absent"}
+  PNatSet = {"unrestricted", "restricted", "unknown"}
   CNatSet = {"unrestricted", "restricted", "unknown", "absent"}
-  FpSet = {"default", "b2", "unlisted"}
-  UnknownTargets = TRUE
+  FpSet = {"default"}
+  UnknownTargets = FALSE
   Bridges = {"default", "b2"}
   DupSids = FALSE
   Rejects = TRUE
